@@ -294,8 +294,14 @@ def expected(exp):
     return obs_string(exp["err"], exp["shape"], exp["strides"], exp["el"])
 
 
-def predicted(exp):
-    return obs_string(exp["perr"], exp["pshape"], exp["pstrides"], exp["pel"])
+def former_cell(exp):
+    """the two defects repaired by 20608b6d6 lived on these cells (marks published by the spec)"""
+    k = []
+    if exp["nbs"] or exp["nbe"]:
+        k.append("neg-step-bound-below-minus-len")
+    if exp["agd"]:
+        k.append("bounds-against-step-by-less-than-a-step")
+    return "+".join(k) or "none"
 
 
 def mv_applicable(nd, hist):
@@ -307,8 +313,8 @@ def mv_applicable(nd, hist):
 def descriptor(part, path, case):
     exp = case["exp"]
     nb = "both" if exp["nbs"] and exp["nbe"] else "start" if exp["nbs"] else "stop" if exp["nbe"] else "none"
-    return {"part": part, "path": path, "hz": exp["hz"], "nd": len(case["lens"]), "depth": len(case["hist"]),
-            "neg_step_bound_below_minus_len": nb, "abs_step_ge_2": bool(exp["big"]),
+    return {"part": part, "path": path, "nd": len(case["lens"]), "depth": len(case["hist"]),
+            "neg_step_bound_below_minus_len": nb, "bounds_against_step_lt_step": bool(exp["agd"]),
             "expected": "exception" if exp["err"] else ("empty" if not exp["el"] else "elements")}
 
 
@@ -321,12 +327,10 @@ def classes(cases):
     for c in cases:
         exp = c["exp"]
         bump("err:" + (exp["err"] or "none"))
-        bump("hz:" + exp["hz"])
+        bump("former:" + former_cell(exp))
         if not exp["err"]:
             bump("empty" if not exp["el"] else "nonempty")
             bump("ndim_out:%d" % len(exp["shape"]))
-        if not exp["safe"]:
-            bump("unsafe")
         last = c["hist"][-1]
         for it in last:
             bump("item:" + it[0])
